@@ -22,7 +22,7 @@ ASSUMPTIONS = [
     "names compare case-insensitively, at most 8 characters; extensions case-insensitively, at most 3",
     "load / entry addresses are compared for machine-language files only (other kinds do not store them)",
 ]
-HEALTH = {"multi_granule": 0.2, "edge_length": 0.2, "foreign": 0.3, "non_adjacent": 0.2}
+HEALTH = {"multi_granule": 0.08, "edge_length": 0.08, "foreign": 0.12, "non_adjacent": 0.08}
 EXHAUSTIVE = {"quick": ["single file of every data length 2280..2320 and 4590..4620 x 3 kinds x 3 placements"],
               "thorough": ["single file of every data length 2280..2320 and 4590..4620 x 3 kinds x 3 placements"]}
 
